@@ -14,13 +14,22 @@ One case type, op "c12.opt", payload [dt, alts, profile, flags, mode, core, plan
                     certificate accepted by the verified checker (theorem cert_valid_bound)
   planted_vot = [] | [axis, V]   planted_alt = [] | [axis, D]    certificates known to the generator (upper bounds)
 In every mode each returned (axis, deletion set) goes through the verified checkers c12.cert_vot / c12.cert_alt with
-k = the reported objective (theorems cert_vot_correct / cert_alt_correct)."""
+k = the reported objective (theorems cert_vot_correct / cert_alt_correct).
+
+Second case type, op "c12.enc", payload [kind, dt, alts, profile], kind 0 is_single_peaked_ILP, 1 voter deletion,
+2 alternative deletion: the ILP that the function hands to python-mip is captured WITHOUT solving (mip.Model is wrapped
+in the namespace of singlepeakedness.py: the wrapper records the model object and its optimize() raises a private
+exception) and its variables (name, integrality, bounds), the MULTISET of its constraints (terms, sense, right-hand
+side, exact rationals multiplied by 2) and its objective are compared with the mirrored model of Model/ILPEnc.v
+(op c12.ilp_constraints), about which ilp_*_sound / ilp_*_complete / ilp_*_optimum are proved.  The order of the
+constraints and of the terms, and the constraint names, are not compared."""
 import itertools
 import random
 
 from .common import case, guarded, ordinal_instance, weak_orders, rand_weak_order, rand_perm
 
 ID = "C12"
+COVER_FILES = ['properties/subdomains/ordinal/singlepeaked/k_alternative_deletion.py']
 RULE = ("every set of 1-3 distinct strict orders over 3 alternatives (dynamic programme on all, ILPs on a budgeted "
         "subset in quick), sets of 1-3 weak orders over 3 alternatives; random soc/toc profiles with m <= 5 (thorough 6) "
         "alternatives and n <= 5 distinct orders: planted single-peaked + 0-3 spoiler votes, planted + 0-3 spoiler "
@@ -30,15 +39,25 @@ RULE = ("every set of 1-3 distinct strict orders over 3 alternatives (dynamic pr
         "7 <= m <= 10, n <= 8; DP: m <= 12): certificates + lower bound from the best of 3 embedded 5-alternative "
         "cores (opt_restrict_mono) + upper bound from the planted certificate (cert_valid_bound). ILP budget: 150 "
         "calls quick, 2000 thorough. non-trivial = reference optimum (voters or alternatives) >= 1 "
-        "(large instances: some reported optimum >= 1)")
-EXHAUSTIVE = {"quick": "k_alternative_deletion on every set of 1-3 distinct strict orders over 3 alternatives",
+        "(large instances: some reported optimum >= 1). Encoding cases (c12.enc, no solver call): for each of the three "
+        "ILP functions the variables/bounds, the multiset of constraints and the objective of the python-mip model = "
+        "the mirrored model of Model/ILPEnc.v, on every profile of 1-2 weak orders over m <= 2 (thorough: m <= 3) "
+        "alternatives and random soc/toc profiles m <= 5, n <= 4; non-trivial = m >= 3 and a non-empty constraint list")
+EXHAUSTIVE = {"quick": "k_alternative_deletion on every set of 1-3 distinct strict orders over 3 alternatives; ILP "
+                       "encodings (3 functions) on every profile of 1-2 distinct weak orders over m <= 2 alternatives and "
+                       "every single weak order over 3",
               "thorough": "k_alternative_deletion and both ILPs on every set of 1-3 distinct strict orders over 3 "
                           "alternatives; both ILPs on every set of 1-2 distinct weak orders over 3 alternatives that "
-                          "contains a tie"}
-TRUSTED = ["(R) not verified, compared with the verified references min_vot_del / min_alt_del on bounded inputs and "
-           "through the verified certificate checkers cert_vot / cert_alt at every size: approx_SP_voter_deletion_ILP, "
-           "approx_SP_alternative_deletion_ILP (constraint builders + python-mip/CBC, max_gap 0.05), "
-           "k_alternative_deletion / longest_single_peaked_axis (dynamic programme)"]
+                          "contains a tie; ILP encodings (3 functions) on every profile of 1-2 distinct weak orders "
+                          "over m <= 3 alternatives"}
+TRUSTED = ["the solver: python-mip 2.0 / CBC returns an optimal feasible assignment of the model it is given (within "
+           "max_gap 0.05, which cannot hide a unit below 20 alternatives) and int(v.x) recovers the integer values; the "
+           "constraint builders, variable declarations and objectives of is_single_peaked_ILP, "
+           "approx_SP_voter_deletion_ILP and approx_SP_alternative_deletion_ILP are MIRRORED (Model/ILPEnc.v), proved sound "
+           "and complete for every size (Proofs/ILPEnc.v) and compared with the model python-mip receives (c12.enc)",
+           "(R) not verified: k_alternative_deletion / longest_single_peaked_axis (dynamic programme) - compared with the "
+           "verified reference min_alt_del on bounded inputs and through the verified checker cert_alt at every size; "
+           "the three ILP functions are additionally compared end-to-end (objective = reference, certificates)"]
 ASSUMPTIONS = ["orders are complete over the instance's alternatives with non-empty classes; instance.orders holds "
                "distinct orders; the objective is unweighted (one unit per distinct order / per alternative); fewer than "
                "20 alternatives (quantifier of C12)"]
@@ -47,7 +66,10 @@ CHUNK = 2
 
 DT = {0: "soc", 2: "toc"}
 THEOREMS_FOR_OP = {"c12.opt": "min_vot_del_correct / min_alt_del_correct / cert_vot_correct / cert_alt_correct / "
-                              "cert_valid_bound / opt_restrict_mono"}
+                              "cert_valid_bound / opt_restrict_mono",
+                   "c12.enc": "ilp_sp_sound / ilp_sp_complete / ilp_votdel_optimum / ilp_altdel_optimum (the mirrored "
+                              "model of Model/ILPEnc.v is the model python-mip receives)"}
+KIND = {0: "is_single_peaked_ILP", 1: "approx_SP_voter_deletion_ILP", 2: "approx_SP_alternative_deletion_ILP"}
 F_VOT, F_ALT, F_DP = 1, 2, 4
 
 
@@ -271,6 +293,30 @@ def generate(tier, seed):
         fam = ["vot-planted", "alt-planted", "alt-planted"][i % 3]
         prof, pv, pa = make_profile(rng, alts, rng.randint(3, 8), False, fam)
         out.append(mk(alts, prof, F_DP, 0, core=pick_core(rng, alts, prof, 5), pv=pv, pa=pa, family=fam, large=1))
+    # ---- encoding correspondence (no solver call): exhaustive tiny + random m <= 5, n <= 4, soc and toc
+    def enc(alts, prof, **tags):
+        dt = 0 if is_strict(prof) else 2
+        for kind in (0, 1, 2):
+            out.append(case("c12.enc", [kind, dt, list(alts), prof], m=len(alts), n=len(prof), **tags))
+
+    for m in (1, 2, 3):
+        a = list(range(1, m + 1))
+        wos = list(weak_orders(a))
+        singles = [[o] for o in wos]
+        pairs = [list(c) for c in itertools.combinations(wos, 2)]
+        if not thorough and m == 3:
+            pairs = rng.sample(pairs, 12)
+        for prof in singles + pairs:
+            enc(a, prof, exh=1 if (thorough or m < 3) else 0, family="enc-exh")
+    for i in range(40 if not thorough else 400):
+        m = rng.choice([2, 3, 3, 4, 4, 5, 5])
+        alts = rand_perm(rng, rng.sample(range(1, rng.choice([8, 40, 10 ** 6])), m))
+        weak = (i % 2 == 1)
+        fam = ["vot-planted", "alt-planted", "random", "toptie"][i % 4]
+        if fam == "toptie" and not weak:
+            fam = "random"
+        prof, _, _ = make_profile(rng, alts, rng.randint(1, 4), weak, fam)
+        enc(alts, prof, family="enc-" + fam)
     return out
 
 
@@ -287,7 +333,7 @@ def _objective(x):
     return [int(r), int(abs(q - r) < Fraction(1, 10 ** 6))]
 
 
-def impl(c):
+def _opt_impl(c):
     from preflibtools.properties.subdomains.ordinal.singlepeaked import singlepeakedness as SPM
     from preflibtools.properties.subdomains.ordinal.singlepeaked.k_alternative_deletion import k_alternative_deletion
     dt, alts, profile, flags = c["payload"][:4]
@@ -354,7 +400,7 @@ def _plan(c, r):
     return plan
 
 
-def oracle_requests(c, r):
+def _opt_oracle_requests(c, r):
     return [(op, pl) for _, op, pl in _plan(c, r)]
 
 
@@ -372,7 +418,7 @@ def _mm(thm, msg):
     return {"kind": "mismatch", "theorem": thm, "reason": msg}
 
 
-def judge(c, r, mres):
+def _opt_judge(c, r, mres):
     dt, alts, profile, flags, mode, core, pv, pa = c["payload"]
     M = _model(c, r, mres)
     if len(M) != len(mres):
@@ -457,7 +503,7 @@ def judge(c, r, mres):
     return None
 
 
-def nontrivial(c, r, mres):
+def _opt_nontrivial(c, r, mres):
     M = _model(c, r, mres)
     if c["payload"][4] == 1:
         return M["ref_vot"] >= 1 or M["ref_alt"] >= 1
@@ -475,7 +521,7 @@ def _bucket(k):
     return "0" if k == 0 else ("1" if k == 1 else ">=2")
 
 
-def stats(c, r, mres):
+def _opt_stats(c, r, mres):
     dt, alts, profile, flags, mode = c["payload"][:5]
     M = _model(c, r, mres)
     _cores(M, c["payload"][5])
@@ -499,7 +545,7 @@ def stats(c, r, mres):
     return lab
 
 
-def describe(c):
+def _opt_describe(c):
     dt, alts, profile, flags, mode, core, pv, pa = c["payload"]
     return {"op": c["op"], "data_type": DT[dt], "alternatives": alts, "orders": profile,
             "functions": [n for b, n in ((1, "approx_SP_voter_deletion_ILP"), (2, "approx_SP_alternative_deletion_ILP"),
@@ -508,7 +554,7 @@ def describe(c):
             "planted_voter_certificate": pv, "planted_alternative_certificate": pa}
 
 
-def shrink(c):
+def _opt_shrink(c):
     dt, alts, profile, flags, mode, core, pv, pa = c["payload"]
 
     def rebuild(na, np_):
@@ -542,3 +588,202 @@ def shrink(c):
     for b in (F_VOT, F_ALT, F_DP):
         if flags & b and flags != b:
             yield dict(c, payload=[dt, alts, profile, b, mode, core, pv, pa])
+
+
+# ================================================================================================ c12.enc
+class _StopBeforeSolve(Exception):
+    pass
+
+
+def _capture(fn, inst):
+    """run fn(inst) with mip.Model wrapped in the namespace of singlepeakedness.py; return the model object the function
+    built, stopped at its first optimize() call"""
+    import mip
+    from preflibtools.properties.subdomains.ordinal.singlepeaked import singlepeakedness as SPM
+    got = []
+
+    class CapModel(mip.Model):
+        def __init__(self, *a, **kw):
+            super().__init__(*a, **kw)
+            got.append(self)
+
+        def optimize(self, *a, **kw):
+            raise _StopBeforeSolve()
+
+    old = SPM.Model
+    SPM.Model = CapModel
+    try:
+        try:
+            fn(inst)
+        except _StopBeforeSolve:
+            pass
+    finally:
+        SPM.Model = old
+    if len(got) != 1:
+        raise RuntimeError("expected exactly one mip.Model, got %d" % len(got))
+    return got[0]
+
+
+def _varkey(name):
+    parts = name.split("_")
+    head, idx = parts[0], [int(x) for x in parts[1:]]
+    code = {"leftof": 0, "pos": 1, "delVoter": 2, "delAlt": 3}[head]
+    if len(idx) != (2 if code == 0 else 1):
+        raise ValueError("variable name " + name)
+    return [code] + idx
+
+
+def _int2(x, what):
+    """2*x as an int (x a float read from python-mip); anything else is reported"""
+    from fractions import Fraction
+    q = 2 * Fraction(x)
+    if q.denominator != 1:
+        raise ValueError("%s = %r is not a multiple of 1/2" % (what, x))
+    return int(q)
+
+
+def _canon_terms(pairs):
+    acc = {}
+    for key, w in pairs:
+        k = tuple(key)
+        acc[k] = acc.get(k, 0) + w
+    return sorted([list(k), w] for k, w in acc.items() if w != 0)
+
+
+def _canon_impl_model(m):
+    from fractions import Fraction
+    vs = []
+    for v in m.vars:
+        if v.var_type not in ("B", "I"):
+            raise ValueError("variable %s is not integral (type %s)" % (v.name, v.var_type))
+        lb, ub = Fraction(v.lb), Fraction(v.ub)
+        if lb.denominator != 1 or ub.denominator != 1:
+            raise ValueError("bounds of %s" % v.name)
+        vs.append([_varkey(v.name), int(lb), int(ub)])
+    cs = []
+    sense = {"<": 0, ">": 1, "=": 2}
+    for c in m.constrs:
+        e = c.expr
+        terms = _canon_terms((_varkey(k.name), _int2(w, "coefficient")) for k, w in e.expr.items())
+        cs.append([terms, sense[e.sense], -_int2(e.const, "constant")])
+    o = m.objective
+    from fractions import Fraction as F
+    obj = _canon_terms((_varkey(k.name), int(F(w)) if F(w).denominator == 1 else F(w)) for k, w in o.expr.items())
+    return {"vars": sorted(vs), "cstrs": sorted(cs), "obj": obj, "obj_const": float(o.const), "sense": str(m.sense)}
+
+
+def _enc_impl(c):
+    from preflibtools.properties.subdomains.ordinal.singlepeaked import singlepeakedness as SPM
+    kind, dt, alts, profile = c["payload"]
+    fn = {0: SPM.is_single_peaked_ILP, 1: SPM.approx_SP_voter_deletion_ILP, 2: SPM.approx_SP_alternative_deletion_ILP}[kind]
+    m = _capture(fn, _instance(dt, alts, profile))
+    return _canon_impl_model(m)
+
+
+def _canon_model_answer(ans):
+    vds, cstrs, obj = ans
+    vs = sorted([list(v), lb, ub] for v, lb, ub in vds)
+    cs = sorted([_canon_terms((v, w) for w, v in terms), rel, rhs] for terms, rel, rhs in cstrs)
+    return {"vars": vs, "cstrs": cs, "obj": _canon_terms((v, w) for w, v in obj)}
+
+
+def _multiset_diff(a, b):
+    """elements of a not matched in b (multiset difference), a and b sorted lists"""
+    from collections import Counter
+    ca = Counter(repr(x) for x in a)
+    cb = Counter(repr(x) for x in b)
+    return list((ca - cb).elements())
+
+
+def _enc_judge(c, r, mres):
+    """A difference means that the encoding theorems (about the mirrored model) no longer speak about the model the code
+    builds: kind broken-correspondence (DESIGN 4: concrete failures found by the c12.opt campaign of the same run are
+    reported first; otherwise `no-failing-input-found`)."""
+    kind = c["payload"][0]
+    fn = KIND[kind]
+    M = _canon_model_answer(mres[0])
+    thm = {0: "ilp_sp_sound / ilp_sp_complete", 1: "ilp_votdel_sound / ilp_votdel_complete / ilp_votdel_optimum",
+           2: "ilp_altdel_sound / ilp_altdel_complete / ilp_altdel_optimum"}[kind]
+
+    def bc(msg):
+        return {"kind": "broken-correspondence", "theorem": thm,
+                "reason": "the ILP built by %s differs from the mirrored model of Model/ILPEnc.v (%s no longer apply "
+                          "to the code): %s" % (fn, thm, msg)}
+    if r["sense"] != "MIN":
+        return bc("optimisation sense %s" % r["sense"])
+    if r["vars"] != M["vars"]:
+        return bc("variables / bounds: only in the implementation %s, only in the mirror %s"
+                  % (_multiset_diff(r["vars"], M["vars"])[:4], _multiset_diff(M["vars"], r["vars"])[:4]))
+    if r["cstrs"] != M["cstrs"]:
+        return bc("constraint multisets (coefficients x2; var codes 0 leftof, 1 pos, 2 delVoter, 3 delAlt): only in "
+                  "the implementation %s, only in the mirror %s"
+                  % (_multiset_diff(r["cstrs"], M["cstrs"])[:4], _multiset_diff(M["cstrs"], r["cstrs"])[:4]))
+    if r["obj"] != M["obj"] or r["obj_const"] != 0.0:
+        return bc("objective %r (+%r), mirror %r" % (r["obj"], r["obj_const"], M["obj"]))
+    return None
+
+
+def _enc_stats(c, r, mres):
+    kind, dt, alts, profile = c["payload"]
+    n = len(r["cstrs"]) if isinstance(r, dict) and "cstrs" in r else -1
+    b = "0-49" if n < 50 else ("50-199" if n < 200 else ("200-999" if n < 1000 else ">=1000"))
+    return ["enc %s" % KIND[kind], "enc %s m=%d" % (DT[dt], len(alts)), "enc constraints %s" % b]
+
+
+def _enc_describe(c):
+    kind, dt, alts, profile = c["payload"]
+    return {"op": c["op"], "function": KIND[kind], "data_type": DT[dt], "alternatives": alts, "orders": profile,
+            "compared": "variables, constraint multiset, objective of the python-mip model (not solved)"}
+
+
+def _enc_shrink(c):
+    kind, dt, alts, profile = c["payload"]
+    if len(profile) > 1:
+        for i in range(len(profile)):
+            np_ = profile[:i] + profile[i + 1:]
+            yield dict(c, payload=[kind, 0 if is_strict(np_) else 2, alts, np_])
+    if len(alts) > 1:
+        for a in alts:
+            na = [x for x in alts if x != a]
+            np_ = []
+            for o in profile:
+                o2 = [[x for x in cl if x != a] for cl in o]
+                o2 = [cl for cl in o2 if cl]
+                if o2 and canon_classes(o2) not in [canon_classes(q) for q in np_]:
+                    np_.append(o2)
+            if np_:
+                yield dict(c, payload=[kind, 0 if is_strict(np_) else 2, na, np_])
+
+
+# ================================================================================================ dispatch
+def impl(c):
+    return _enc_impl(c) if c["op"] == "c12.enc" else _opt_impl(c)
+
+
+def oracle_requests(c, r):
+    if c["op"] == "c12.enc":
+        kind, dt, alts, profile = c["payload"]
+        return [("c12.ilp_constraints", [kind, alts, profile])]
+    return _opt_oracle_requests(c, r)
+
+
+def judge(c, r, mres):
+    return _enc_judge(c, r, mres) if c["op"] == "c12.enc" else _opt_judge(c, r, mres)
+
+
+def nontrivial(c, r, mres):
+    if c["op"] == "c12.enc":
+        return len(c["payload"][2]) >= 3 and isinstance(r, dict) and len(r.get("cstrs", [])) > 0
+    return _opt_nontrivial(c, r, mres)
+
+
+def stats(c, r, mres):
+    return _enc_stats(c, r, mres) if c["op"] == "c12.enc" else _opt_stats(c, r, mres)
+
+
+def describe(c):
+    return _enc_describe(c) if c["op"] == "c12.enc" else _opt_describe(c)
+
+
+def shrink(c):
+    return _enc_shrink(c) if c["op"] == "c12.enc" else _opt_shrink(c)
